@@ -79,9 +79,6 @@ Fixpoint all_some {A} (l : list (option A)) : option (list A) :=
   | None :: _ => None
   end.
 
-Definition count_visits (ops : list op) : N :=
-  N.of_nat (length (filter (fun o => match o with OVisit _ => true | _ => false end) ops)).
-
 Definition snapshot_in_domain (d : dto) (ops : list op) : bool :=
   let l := olist (d_vl d) in
   let lvs := olist (d_lv d) in
